@@ -78,7 +78,7 @@ func BlockFreq(e []bool, m int) (p, q float64) {
 
 func Poker(e []bool, m int) (p, q float64) {
 	N := len(e) / m
-	cnt := map[int]int{}
+	cnt := make([]int, 1<<uint(m))
 	for i := 0; i < N; i++ {
 		cnt[pattern(e[i*m:(i+1)*m])]++
 	}
@@ -101,31 +101,68 @@ func pattern(b []bool) int {
 
 // ---------- 4 overlapping subsequence (serial) ----------
 
-func psi2(e []bool, m int) float64 {
-	if m <= 0 {
-		return 0
-	}
+// sumSq is the sum of the squared counts of the overlapping m-bit patterns of the cyclically
+// extended sequence (n^2 for m = 0).
+func sumSq(e []bool, m int) int64 {
 	n := len(e)
+	if m <= 0 {
+		return int64(n) * int64(n)
+	}
 	ext := append(append([]bool{}, e...), e[:m-1]...)
-	cnt := map[int]int{}
+	cnt := make([]int64, 1<<uint(m))
 	for i := 0; i < n; i++ {
 		cnt[pattern(ext[i:i+m])]++
 	}
-	sum := 0.0
+	var s int64
 	for _, c := range cnt {
-		sum += float64(c) * float64(c)
+		s += c * c
 	}
-	return math.Pow(2, float64(m))/float64(n)*sum - float64(n)
+	return s
+}
+
+// OverlappingStats returns the two statistics of the overlapping-subsequence test, evaluated
+// exactly: psi2_m = (2^m/n) S_m - n, so the -n terms cancel in both differences and
+//
+//	del  psi2 = (2^m S_m - 2^(m-1) S_(m-1)) / n
+//	del2 psi2 = (2^m S_m - 2 * 2^(m-1) S_(m-1) + 2^(m-2) S_(m-2)) / n      (S_0 = n^2, 2^(m-2) S_(m-2) for m=2 is n^2)
+//
+// are integer numerators over n (one rounding). delta bounds the rounding noise of a direct
+// floating-point evaluation of the same differences (cancellation of terms of size 2^m S_m / n).
+func OverlappingStats(e []bool, m int) (d1, d2, delta float64) {
+	n := int64(len(e))
+	a := sumSq(e, m) << uint(m)
+	b := sumSq(e, m-1) << uint(m-1)
+	var c int64
+	if m >= 2 {
+		c = sumSq(e, m-2) << uint(m-2)
+	}
+	d1 = float64(a-b) / float64(n)
+	d2 = float64(a-2*b+c) / float64(n)
+	delta = 2e-15 * (float64(a) + 2*float64(b) + float64(c)) / float64(n)
+	return
 }
 
 func Overlapping(e []bool, m int) (p1, p2, q1, q2 float64) {
-	a, b, c := psi2(e, m), psi2(e, m-1), psi2(e, m-2)
-	d1 := a - b
-	d2 := a - 2*b + c
+	d1, d2, _ := OverlappingStats(e, m)
 	// shapes 2^(m-2) and 2^(m-3)
-	p1 = Q2(1<<uint(m-1), d1/2)  // twoA = 2 * 2^(m-2)
-	p2 = Q2(1<<uint(m-2), d2/2)  // twoA = 2 * 2^(m-3)
+	p1 = Q2(1<<uint(m-1), d1/2) // twoA = 2 * 2^(m-2)
+	p2 = Q2(1<<uint(m-2), d2/2) // twoA = 2 * 2^(m-3)
 	return p1, p2, p1, p2
+}
+
+// OverlappingSlack is how far P1 and P2 may legitimately move when the statistics are evaluated
+// in floating point (the shape-1/2 tail has an infinite slope at 0).
+func OverlappingSlack(e []bool, m int) []float64 {
+	d1, d2, delta := OverlappingStats(e, m)
+	sl := func(twoA int, d float64) float64 {
+		lo := d/2 - delta
+		if lo < 0 {
+			lo = 0
+		}
+		return math.Abs(Q2(twoA, lo) - Q2(twoA, d/2+delta))
+	}
+	s1, s2 := sl(1<<uint(m-1), d1), sl(1<<uint(m-2), d2)
+	return []float64{s1, s2, s1, s2}
 }
 
 // ---------- 5 runs ----------
@@ -438,12 +475,15 @@ func Cusum(e []bool, forward bool) (p, q float64) {
 func phi(e []bool, m int) float64 {
 	n := len(e)
 	ext := append(append([]bool{}, e...), e[:m]...)
-	cnt := map[int]int{}
+	cnt := make([]int, 1<<uint(m))
 	for i := 0; i < n; i++ {
 		cnt[pattern(ext[i:i+m])]++
 	}
 	s := 0.0
 	for _, c := range cnt {
+		if c == 0 {
+			continue
+		}
 		pi := float64(c) / float64(n)
 		s += pi * math.Log(pi)
 	}
